@@ -54,7 +54,14 @@ RULE = ("Round trip: Hypothesis draws the structure of a height map - shape (1xN
         "loaded and the oracle is what the object holds when it is saved; in file_sequence the object returned by the previous read "
         "may also be the one that is re-parameterised and saved next.  Every field the round trip must preserve (shape, values, NaN "
         "placement, dx, wavelength) is therefore checked after having been changed on an object whose metadata still describe its "
-        "earlier state.")
+        "earlier state.  NaN patterns (value-pattern pass): besides none / scattered / top row + part of the last column / all but one / all, "
+        "every writer (and the file_sequence and truncation clauses) is given maps whose outermost 1-2 rows / columns are entirely "
+        "invalid on the top, bottom, left or right side alone, on two opposite sides, on all four sides (margin), maps whose valid "
+        "samples form a (possibly ragged) block in one of the four corners, a disc with a margin inside the frame, and - as the "
+        "control - a whole invalid row and column in the interior only; the evidence labels are measured from the mask that was "
+        "really written ('whole invalid edge line: top/bottom/left/right', 'invalid edge lines on k side(s), valid samples: 1 / one "
+        "row / one column / area', 'valid samples reach only corner ..').  The truncation clauses first judge the intact file as a "
+        "round trip (shape, NaN placement, values) before the harness' model of the file layout is applied.")
 ASSUMPTIONS = ["the operating system's file layer returns the bytes that were written",
                "numpy float/int conversion and IEEE-754 float32 rounding (relative 2^-24) are correct",
                "the harness' own parser of the Code V header line (tokens GRD/WVL/SSZ/NDA) and of the 834-byte Zygo "
@@ -70,8 +77,14 @@ ZYGO_RES = 32768          # phase_res = 1 (what the writer writes)
 ZYGO_MAX_COUNTS = 2.0e9   # < 2147483640 (the invalid sentinel)
 
 SIGNS = ['pos', 'neg', 'mixed', 'mixed', 'const', 'negconst', 'zero']
-NANS = ['none', 'none', 'scatter', 'rowcol', 'allbut1', 'all']
-NANS_SOME_VALID = ['none', 'none', 'scatter', 'rowcol', 'allbut1']
+# NaN patterns.  'edge-*' / 'margin': whole invalid rows / columns (1-2 of them) at the named side(s) of the map, every other sample valid;
+# 'corner-*': valid samples only in a block at one corner; 'aperture': a disc with a margin inside the frame; 'interior-lines': a whole
+# invalid row and column that are NOT at the edge (control); 'allbut1': a single valid sample anywhere
+EDGE_NANS = ['edge-top', 'edge-bottom', 'edge-left', 'edge-right', 'edge-tb', 'edge-lr', 'margin', 'margin',
+             'corner-tl', 'corner-tr', 'corner-bl', 'corner-br', 'aperture', 'interior-lines']
+NANS = ['none', 'none', 'none', 'scatter', 'scatter', 'rowcol', 'allbut1', 'all'] + EDGE_NANS
+NANS_SOME_VALID = [k for k in NANS if k != 'all']
+_SIDES = {'edge-top': 't', 'edge-bottom': 'b', 'edge-left': 'l', 'edge-right': 'r', 'edge-tb': 'tb', 'edge-lr': 'lr', 'margin': 'tblr'}
 ZYGO_AMPS = [1e-3, 0.4, 3.0, 100.0, 1e4, 1e6, ZYGO_MAX_COUNTS]   # in counts (quantisation steps)
 CODEV_AMPS = [1e-20, 1e-6, 1e-3, 0.5, 30.0, 999.0, 1e4, 1e7, 1e12, 1e25]      # in nm (1e-20 / 1e25: far ends that float32 still holds)
 TITLES = ['CV GRD generated by prysm', 'surface 3 figure error', 'x']
@@ -101,6 +114,34 @@ def _nan_mask(shape, kind, seed):
         m[int(r.integers(0, h)), int(r.integers(0, w))] = False
     elif kind == 'all':
         m[:] = True
+    elif kind in _SIDES:
+        for side in _SIDES[kind]:
+            n = 1 + int(r.integers(0, 2))       # one or two whole lines
+            if side == 't':
+                m[:n, :] = True
+            elif side == 'b':
+                m[h - min(n, h):, :] = True
+            elif side == 'l':
+                m[:, :n] = True
+            else:
+                m[:, w - min(n, w):] = True
+    elif kind.startswith('corner-'):
+        ch, cw = 1 + int(r.integers(0, max(1, h // 2))), 1 + int(r.integers(0, max(1, w // 2)))     # size of the valid block
+        m[:] = True
+        rows = slice(0, ch) if kind[7] == 't' else slice(h - ch, h)
+        cols = slice(0, cw) if kind[8] == 'l' else slice(w - cw, w)
+        m[rows, cols] = False
+        if r.integers(0, 2):
+            m[rows, cols] |= r.uniform(0, 1, m[rows, cols].shape) < 0.3       # ragged inside the block
+    elif kind == 'aperture':
+        yy, xx = np.mgrid[:h, :w]
+        cy, cx = (h - 1) / 2.0 + float(r.uniform(-0.5, 0.5)), (w - 1) / 2.0 + float(r.uniform(-0.5, 0.5))
+        m = np.hypot(yy - cy, xx - cx) > max(0.6, min(h, w) / 2.0 - (1.1 + float(r.uniform(0, 1))))
+    elif kind == 'interior-lines':
+        if h >= 3:
+            m[int(r.integers(1, h - 1)), :] = True
+        if w >= 3:
+            m[:, int(r.integers(1, w - 1))] = True
     if kind != 'all' and m.all():
         # every other pattern keeps at least one valid sample (1x1, 1xN maps)
         m[int(r.integers(0, h)), int(r.integers(0, w))] = False
@@ -204,6 +245,30 @@ def _require_unchanged(ctx, who, names, objs, snaps):
             ctx.fail(who + ':argument-modified', 'the %s handed to %s was changed by the call: %s' % (name, who, detail))
 
 
+def _edge_labels(case, ctx, prefix=''):
+    """what the NaN pattern really is on this shape (measured from the mask, not taken from its name): whole invalid edge rows /
+    columns per side, number of sides, whether the valid samples are one sample / one row / one column / an area, and whether they
+    only reach one corner of the frame"""
+    h, w = case['shape']
+    if case.get('dtype', 'f8') not in ('f8', 'f4') or case['nan'] in ('none', 'all'):
+        return
+    m = _nan_mask((h, w), case['nan'], case['seed'])
+    rows, cols = m.all(axis=1), m.all(axis=0)
+    sides = [nm for nm, f in (('top', rows[0]), ('bottom', rows[-1]), ('left', cols[0]), ('right', cols[-1])) if f]
+    nvalid = int((~m).sum())
+    geom = '1' if nvalid == 1 else 'one row' if (~rows).sum() == 1 else 'one column' if (~cols).sum() == 1 else 'area'
+    for nm in sides:
+        ctx.label(prefix + 'whole invalid edge line: ' + nm)
+    ctx.label(prefix + 'invalid edge lines on %d side(s), valid samples: %s' % (len(sides), geom))
+    if sides and nvalid > 1:
+        vr, vc = np.flatnonzero(~rows), np.flatnonzero(~cols)
+        corner = [a + b for a, f in (('t', vr[0] == 0), ('b', vr[-1] == h - 1)) if f for b, g in (('l', vc[0] == 0), ('r', vc[-1] == w - 1)) if g]
+        if len(sides) >= 2 and len(corner) == 1:
+            ctx.label(prefix + 'valid samples reach only corner ' + corner[0])
+    if (rows[1:-1].any() and not (rows[0] or rows[-1])) or (cols[1:-1].any() and not (cols[0] or cols[-1])):
+        ctx.label(prefix + 'whole invalid line in the interior only')
+
+
 def _labels(case, ctx, amps):
     h, w = case['shape']
     dt = case.get('dtype', 'f8')
@@ -221,6 +286,7 @@ def _labels(case, ctx, amps):
         ctx.label('2-D map not in C order' + (' with NaN' if case['nan'] != 'none' else ''))
     if dt == 'f4' and case['nan'] != 'none':
         ctx.label('float32 map with NaN')
+    _edge_labels(case, ctx)
     ctx.nt(h != w or case['sign'] in ('neg', 'mixed', 'negconst') or (case['nan'] != 'none' and dt in ('f8', 'f4')))
 
 
@@ -798,6 +864,8 @@ def check_sequence(case, ctx):
         for k, s in enumerate(subs):
             reuse = s['kind'] == 'ifg' and s['reuse_obj'] and prev is not None and prev.kind == 'ifg'
             f = _File(s, s['kind'], ctx, shape=subs[0]['shape'] if case.get('same_shape') else None)
+            ctx.label(s['kind'] + ': nan:' + (s['nan'] if s.get('dtype', 'f8') in ('f8', 'f4') else 'none(int)'))
+            _edge_labels(f.case, ctx, s['kind'] + ': ')
             f.path = os.path.join(d, 'm.dat' if case['mode'] == 'one-path' else 'm%d%s' % (k, '.int' if s['kind'] == 'codev' else '.dat'))
             # ... or the Interferogram that the previous read returned (load -> relabel -> save, the usual workflow)
             reuse_loaded = (s['kind'] == 'ifg' and s.get('reuse_loaded', False) and prev is not None and prev.kind == 'ifg'
@@ -903,7 +971,7 @@ def check_zygo_trunc(case, ctx):
     ctx.nt(True)
     wvl = case['wavelength']
     h, w = case['shape']
-    z, _ = typed_map(case, _zygo_step(wvl), _zygo_step(wvl) * ZYGO_MAX_COUNTS)
+    z, want = typed_map(case, _zygo_step(wvl), _zygo_step(wvl) * ZYGO_MAX_COUNTS)
     if case['reader'] == 'io':
         def reader(path):
             return read_zygo_dat(path)['phase']
@@ -920,6 +988,10 @@ def check_zygo_trunc(case, ctx):
             raw = fh.read()
         total = len(raw)
         first = np.array(ctx.call(reader, p), copy=True)
+        # the intact file is a round trip like any other (first sentence of the property); it is judged before the harness' model of the
+        # file layout is applied, so that a writer that stores another frame is reported as what it is and not as a harness error
+        compare_map(first, want, _zygo_tol(want, wvl, 64, case.get('dtype', 'f8') == 'f4'),
+                    ('zygo' if case['reader'] == 'io' and case['writer'] == 'io' else 'interferogram') + ':intact-file', ctx)
         if total != ZYGO_HEADER + 4 * h * w:
             # not a violation of the property: the harness' model of which samples a cut removes no longer applies (exit 2)
             raise RuntimeError('harness layout model: file of a %dx%d map is %d bytes, expected 834 + 4 per sample' % (h, w, total))
@@ -965,7 +1037,7 @@ def check_codev_trunc(case, ctx):
     _labels(case, ctx, CODEV_AMPS)
     ctx.nt(True)
     h, w = case['shape']
-    z, _ = typed_map(case, 1.0, float('inf'))
+    z, want = typed_map(case, 1.0, float('inf'))
 
     def reader(path):
         return read_codev_gridint(path)[0]
@@ -977,6 +1049,11 @@ def check_codev_trunc(case, ctx):
         first = np.array(ctx.call(reader, p), copy=True)
         hdr = _codev_header(text)
         ctx.require(hdr is not None, 'codev:header', 'header line of the written file is not a GRD header')
+        # the intact file is a round trip like any other: judged before the harness' model of the data block is applied
+        if hdr['ssz'] != 0 and np.isfinite(hdr['ssz']):
+            a = np.where(np.isnan(want), 0.0, np.abs(want))
+            compare_map(first, want, 1000.0 * hdr['wvl'] / abs(hdr['ssz']) * (1 + 1e-9) + a * (1e-12 + (2.0 ** -19 if case.get('dtype', 'f8') == 'f4' else 0.0)),
+                        'codev:intact-file', ctx)
         toks = [(mm.start() + hdr['data_offset'], mm.end() + hdr['data_offset']) for mm in _TOKEN.finditer(text[hdr['data_offset']:])]
         if not text.isascii() or len(toks) != h * w:
             # the harness' model of which samples a cut removes (one token per sample, one byte per character) would not apply
